@@ -1,0 +1,60 @@
+//go:build verif
+
+package base
+
+import (
+	"fmt"
+	"strings"
+)
+
+func verifEncStr(s string) string {
+	s = strings.ReplaceAll(s, "\\", "\\\\")
+	s = strings.ReplaceAll(s, "\"", "\\\"")
+	return "\"" + s + "\""
+}
+
+// VerifEncodeT prints a T canonically (the same text as RubyTi.T.enc in /verif/lean).
+func VerifEncodeT(t *T) string {
+	if t == nil {
+		return "nil"
+	}
+	var v string
+	switch x := t.val.(type) {
+	case nil:
+		v = "n"
+	case string:
+		v = "s" + verifEncStr(x)
+	case int64:
+		v = "i"
+	case int:
+		v = "I"
+	case float64:
+		v = "f"
+	case *T:
+		v = "t" + VerifEncodeT(x)
+	default:
+		v = fmt.Sprintf("?%T", x)
+	}
+	b := func(x bool) string {
+		if x {
+			return "1"
+		}
+		return "0"
+	}
+	flags := b(t.hasDefault) + b(t.isBuiltin) + b(t.isInfferedFromCall) + b(t.IsBuiltinAsterisk) + b(t.IsConditionalReturn) +
+		b(t.IsDestructive) + b(t.isReadOnly) + b(t.IsBlockGiven) + b(t.IsProtected) + b(t.IsStatic) + b(t.IsCaptureOwner) +
+		b(t.IsExtend) + b(t.IsInclude)
+	args := make([]string, len(t.defineArgs))
+	for i, a := range t.defineArgs {
+		args[i] = verifEncStr(a)
+	}
+	list := func(ts []T) string {
+		parts := make([]string, len(ts))
+		for i := range ts {
+			parts[i] = VerifEncodeT(&ts[i])
+		}
+		return strings.Join(parts, " ")
+	}
+	return fmt.Sprintf("(%d %s %s %s %s %s [%s] %s [%s] [%s] [%s])", t.tType, verifEncStr(t.objectClass), v, verifEncStr(t.key),
+		verifEncStr(t.frame), verifEncStr(t.method), strings.Join(args, " "), flags, list(t.variants), list(t.blockParamaters), list(t.Overloads))
+}
